@@ -43,7 +43,14 @@ def explore(ctx: Ctx, fam: Family, thorough: bool):
         for oc in fam.replay("read_device_info", st0, cfg):
             if oc.end != "raise":
                 infos[oc.state.key()] = oc.state
-        for st in infos.values():
+        for sk, st in infos.items():
+            if not hasattr(fam, "_c14_seen"):
+                fam._c14_seen = set()
+            from .c15 import project
+            pk = (project(fam, st), thorough)
+            if pk in fam._c14_seen and not thorough:
+                continue        # read_runtime_data depends on the flags and tables only
+            fam._c14_seen.add(pk)
             for oc in fam.replay("read_runtime_data", st, cfg):
                 yield cfg, st, oc
 
